@@ -3,5 +3,6 @@ pub mod parsers;
 pub mod peer;
 pub mod reader;
 pub mod scan;
+pub mod stale;
 pub mod stream;
 pub mod writer;
